@@ -343,9 +343,7 @@ func bl05cmds() []blCmd {
 		cmds = append(cmds, blCmd{[]string{"s" + op, "a", "b"}, func(m blModel) string {
 			a, ok1 := bl05set(m, "a")
 			b, ok2 := bl05set(m, "b")
-			if op == "inter" && ok1 && m["a"] == nil {
-				return "[]" // redis answers the empty set at the first missing key, before looking at later keys
-			}
+			// (redis 7 treats a missing operand of SINTER as an empty set and still type-checks the operands after it)
 			if !ok1 || !ok2 {
 				return blWrong
 			}
@@ -356,10 +354,6 @@ func bl05cmds() []blCmd {
 			cmds = append(cmds, blCmd{[]string{"s" + op + "store", dest, "a", "b"}, func(m blModel) string {
 				a, ok1 := bl05set(m, "a")
 				b, ok2 := bl05set(m, "b")
-				if op == "inter" && ok1 && m["a"] == nil {
-					delete(m, dest)
-					return "int:0"
-				}
 				if !ok1 || !ok2 {
 					return blWrong
 				}
